@@ -221,9 +221,9 @@ def encMsgAddress (v : Val) (b : Builder) : Outcome Builder :=
         let b ← b.writeUint bs.length 9
         b.writeBits bs
     | .none => do
-      -- a.AddrExtern.ResetCounter() on a nil pointer, after the tag has been written
+      -- a nil AddrExtern: an error after the tag has been written (after the `fix:`; before it a panic)
       let _ ← b.writeUint 1 2
-      .panic "nil pointer dereference"
+      .err "external address is not set"
     | _ => .err "bad value"
   | .cons (.sym "AddrStd") (.cons (.cons ac (.cons (.int wc) (.cons (.bytes addr) .nil))) .nil) => do
     let b ← b.writeUint 2 2
@@ -240,7 +240,7 @@ def encMsgAddress (v : Val) (b : Builder) : Outcome Builder :=
       b.writeBits bs
     | .none => do
       let _ ← b.writeUint 3 2
-      .panic "nil pointer dereference"
+      .err "variable-length address is not set"
     | _ => .err "bad value"
   | .cons (.sym _) (.cons _ .nil) => .err "invalid tag"
   | _ => .err "bad value"
@@ -350,7 +350,7 @@ def encVmCellSlice (v : Val) (b : Builder) : Outcome Builder :=
           let b ← b.writeUint endB.toNat 10
           let b ← b.writeLimUint stR.toNat 4
           b.writeLimUint endR.toNat 4
-      | .none => .panic "nil pointer dereference"
+      | .none => .err "cell slice without a cell"
       | _ => .err "bad value"
   | _ => .err "bad value"
 
